@@ -49,6 +49,37 @@ type Enc struct {
 
 func isBlocking(k string) bool { return k == "recv" || k == "sel" || k == "wait" }
 
+// IsBlocking: receives, selects and eg.Wait always block; eg.Go blocks as well once the
+// group has a limit (errgroup.SetLimit): it waits for a slot that a returning goroutine frees.
+func (e *Enc) IsBlocking(n *Node) bool {
+	return isBlocking(n.Ev.Kind) || (n.Ev.Kind == "spawn" && e.P.LimitSet)
+}
+
+// activeCount is the number of goroutines other than g that have been started and have not
+// returned: before clock t (final=false) or in the final state (final=true).
+func (e *Enc) activeCount(except int, t string, final bool) string {
+	var ts []string
+	for g := 1; g < e.Threads; g++ {
+		if g == except {
+			continue
+		}
+		var act string
+		if final {
+			act = fmt.Sprintf("(and %s (not %s))", e.Spawned(g), e.Returned(g))
+		} else {
+			act = fmt.Sprintf("(and %s (not %s))", e.spawnedBefore(g, t), e.retBefore(g, t))
+		}
+		ts = append(ts, "(ite "+act+" 1 0)")
+	}
+	switch len(ts) {
+	case 0:
+		return "0"
+	case 1:
+		return ts[0]
+	}
+	return "(+ " + strings.Join(ts, " ") + ")"
+}
+
 func Build(p *symx.CProgram) (*Enc, error) {
 	e := &Enc{P: p, ByKey: map[string]*Node{}, Roots: map[int][]*Node{}, callIDs: map[string]int{},
 		Rets: map[int][]*Node{}, Spawns: map[int][]*Node{}, Closes: map[string][]*Node{}, Reads: map[string][]*Node{}, Writes: map[string][]*Node{}, Exits: map[string]*Node{}}
@@ -346,6 +377,10 @@ func (e *Enc) axioms() {
 				alts = append(alts, fmt.Sprintf("(and (= choice_%s %d) %s)", n.Ev.Key, i, e.closedBefore(ch, n.C)))
 			}
 			phi("(=> %s %s)", n.X, or(alts))
+		case "spawn":
+			if e.P.LimitSet {
+				phi("(=> %s (< %s %d))", n.X, e.activeCount(n.Ev.Spawned, n.C, false), e.P.Limit)
+			}
 		case "wait":
 			var all []string
 			for g := 1; g < e.Threads; g++ {
@@ -410,12 +445,14 @@ func (e *Enc) axioms() {
 		default:
 			pre = e.Spawned(n.Thread)
 		}
-		if !isBlocking(n.Ev.Kind) {
+		if !e.IsBlocking(n) {
 			psi("(=> %s %s)", pre, n.X)
 			continue
 		}
 		var en string
 		switch n.Ev.Kind {
+		case "spawn":
+			en = fmt.Sprintf("(< %s %d)", e.activeCount(n.Ev.Spawned, "", true), e.P.Limit)
 		case "recv":
 			en = e.closedFinal(n.Ev.Chan)
 		case "sel":
@@ -470,7 +507,7 @@ func (e *Enc) Parked(n *Node) string {
 func (e *Enc) BlockingNodes() []*Node {
 	var out []*Node
 	for _, n := range e.Nodes {
-		if isBlocking(n.Ev.Kind) {
+		if e.IsBlocking(n) {
 			out = append(out, n)
 		}
 	}
